@@ -653,6 +653,12 @@ class Facts:
         fn = c.f.get('fn')
         if fn and fn != c.raw:
           callers[fn].add(b.path)
+        # std blanket impls that forward to a workspace impl: Into -> From, TryInto -> TryFrom, str::parse -> FromStr,
+        # ToString -> Display
+        tgt = blanket_target(c.f, self.bodies)
+        if tgt is not None:
+          callees[b.path].add(tgt)
+          callers[tgt].add(b.path)
       # closures / coroutines created here, and fn items referenced as values
       for blk in b.blocks:
         if blk['cleanup']:
@@ -726,6 +732,44 @@ class Facts:
         if c.is_(*names):
           out.append(c)
     return out
+
+
+def _split_ga(ga):
+  inner = (ga or '').strip()
+  if inner.startswith('[') and inner.endswith(']'):
+    inner = inner[1:-1]
+  out, cur, depth = [], '', 0
+  for ch in inner:
+    if ch in '<([':
+      depth += 1
+    elif ch in '>)]':
+      depth -= 1
+    if ch == ',' and depth == 0:
+      out.append(cur.strip())
+      cur = ''
+    else:
+      cur += ch
+  if cur.strip():
+    out.append(cur.strip())
+  return out
+
+
+def blanket_target(f, bodies):
+  """raw path of the workspace impl a std blanket impl forwards to, if it exists in the fact base"""
+  fn = f.get('fn')
+  ga = _split_ga(f.get('ga'))
+  cand = None
+  if fn == 'std::convert::Into::into' and len(ga) == 2:
+    cand = f'<{ga[1]} as std::convert::From<{ga[0]}>>::from'
+  elif fn == 'std::convert::TryInto::try_into' and len(ga) == 2:
+    cand = f'<{ga[1]} as std::convert::TryFrom<{ga[0]}>>::try_from'
+  elif fn == 'core::str::<impl str>::parse' and len(ga) == 1:
+    cand = f'<{ga[0]} as std::str::FromStr>::from_str'
+  elif fn == 'std::string::ToString::to_string' and len(ga) == 1:
+    cand = f'<{ga[0]} as std::fmt::Display>::fmt'
+  if cand is not None and cand in bodies:
+    return cand
+  return None
 
 
 def _rv_operands(rv):
@@ -870,7 +914,22 @@ def describe_place(body, p, depth=0):
     return ('var', cv[0]) + (('.'.join(rest),) if rest else ())
   l = p['l']
   projs = [e for e in (p.get('p') or [])]
-  fields = tuple(str(e.get('n', e['f'])) if isinstance(e, dict) and 'f' in e else (e if isinstance(e, str) else ('v:' + e['v'] if 'v' in e else '[]')) for e in projs)
+  def _pe(e):
+    if isinstance(e, dict) and 'f' in e:
+      return str(e.get('n', e['f']))
+    if isinstance(e, str):
+      return e
+    if 'v' in e:
+      return 'v:' + e['v']
+    if 'i' in e:
+      cv = body.const_locals().get(e['i'])
+      if isinstance(cv, int) and not isinstance(cv, bool):
+        return '[%d]' % cv
+    if 'ci' in e and not e.get('fe'):
+      return '[%d]' % e['ci']
+    return '[]'
+
+  fields = tuple(_pe(e) for e in projs)
   fields = tuple(f for f in fields if f != '*')
   name = body.local_name(l)
   if name is not None:
